@@ -67,7 +67,7 @@ inductive Outcome (α : Type) where
   | ok (a : α)
   | err (kind : String)
   | panic (site : String)
-  | diverge
+  | diverge (site : String)
   deriving Repr, DecidableEq
 
 namespace Outcome
@@ -76,13 +76,13 @@ def bind {α β} (o : Outcome α) (f : α → Outcome β) : Outcome β :=
   | ok a => f a
   | err k => err k
   | panic s => panic s
-  | diverge => diverge
+  | diverge s => diverge s
 def map {α β} (f : α → β) (o : Outcome α) : Outcome β := o.bind (fun a => ok (f a))
 def isPanic {α} : Outcome α → Bool
   | panic _ => true
   | _ => false
 def isDiverge {α} : Outcome α → Bool
-  | diverge => true
+  | diverge _ => true
   | _ => false
 end Outcome
 
